@@ -197,7 +197,7 @@ inline Bytes argon2(int type, const Bytes &pwd, const Bytes &salt, uint32_t t_co
 // ---------------------------------------------------------------------------------------------------------
 
 // Standard base64 alphabet (RFC 4648 section 4) WITHOUT '=' padding (PHC string format, "B64").
-inline std::string b64_nopad_encode(const Bytes &in) {
+inline std::string argon2_b64_encode(const Bytes &in) {
     static const char *A = "ABCDEFGHIJKLMNOPQRSTUVWXYZabcdefghijklmnopqrstuvwxyz0123456789+/";
     std::string out;
     uint32_t acc = 0;
@@ -211,7 +211,7 @@ inline std::string b64_nopad_encode(const Bytes &in) {
     return out;
 }
 // Strict decoder: only alphabet characters, length mod 4 != 1, unused trailing bits must be zero.
-inline bool b64_nopad_decode(const std::string &s, Bytes &out) {
+inline bool argon2_b64_decode(const std::string &s, Bytes &out) {
     out.clear();
     if (s.size() % 4 == 1) return false;
     uint32_t acc = 0;
@@ -236,8 +236,8 @@ inline std::string argon2_encode_string(int type, uint32_t m, uint32_t t, uint32
     std::string s = (type == 1) ? "$argon2i" : "$argon2id";
     s += "$v=19";
     s += "$m=" + std::to_string(m) + ",t=" + std::to_string(t) + ",p=" + std::to_string(p);
-    s += "$" + b64_nopad_encode(salt);
-    s += "$" + b64_nopad_encode(hash);
+    s += "$" + argon2_b64_encode(salt);
+    s += "$" + argon2_b64_encode(hash);
     return s;
 }
 
@@ -297,7 +297,7 @@ inline Argon2Str argon2_parse_string(const std::string &s, bool allow_missing_ve
     auto b64field = [&](Bytes &out) -> bool {                            // R6: runs up to the next '$' or the end
         size_t end = s.find('$', pos);
         if (end == std::string::npos) end = s.size();
-        bool good = b64_nopad_decode(s.substr(pos, end - pos), out);
+        bool good = argon2_b64_decode(s.substr(pos, end - pos), out);
         pos = end;
         return good;
     };
@@ -471,7 +471,7 @@ inline int selftest_argon2() {
 
     // Development-time KATs generated with the system libargon2 (Debian libargon2-1 0~20171227-0.3, the PHC
     // reference implementation) through python3 ctypes: argon2_hash(t, m, p, pwd, salt, hash, hashlen, NULL, 0, type, 0x13)
-    // with pwd = pat(pwdlen, 5), salt = pat(16, 6), pat(n, seed) = kat_pattern(n, seed) of blake2b.hpp.
+    // with pwd = pat(pwdlen, 5), salt = pat(16, 6), pat(n, seed) = pwhash_kat_pattern(n, seed) of blake2b.hpp.
     // Columns: type, m (KiB), t, p, pwdlen, outlen, tag.
     {
         static const struct { int type; uint32_t m, t, p; int pwdlen; uint32_t outlen; const char *hex; } kat[] = {
@@ -588,13 +588,13 @@ inline int selftest_argon2() {
         };
         for (size_t k = 0; k < sizeof kat / sizeof kat[0]; k++) {
             snprintf(name, sizeof name, "libargon2 kat type=%d m=%u t=%u p=%u pwdlen=%d outlen=%u", kat[k].type, kat[k].m, kat[k].t, kat[k].p, kat[k].pwdlen, kat[k].outlen);
-            t.eqh(name, argon2(kat[k].type, kat_pattern((size_t) kat[k].pwdlen, 5), kat_pattern(16, 6), kat[k].t, kat[k].m, kat[k].p, kat[k].outlen), kat[k].hex);
+            t.eqh(name, argon2(kat[k].type, pwhash_kat_pattern((size_t) kat[k].pwdlen, 5), pwhash_kat_pattern(16, 6), kat[k].t, kat[k].m, kat[k].p, kat[k].outlen), kat[k].hex);
         }
     }
 
     // String encoder / parser
     {
-        Bytes salt = str("0123456789abcdef"), hash = kat_pattern(32, 7);
+        Bytes salt = str("0123456789abcdef"), hash = pwhash_kat_pattern(32, 7);
         std::string s = argon2_encode_string(2, 65536, 2, 1, salt, hash);
         t.ok("encode prefix", s.rfind("$argon2id$v=19$m=65536,t=2,p=1$MDEyMzQ1Njc4OWFiY2RlZg$", 0) == 0);
         Argon2Str ps = argon2_parse_string(s);
